@@ -171,14 +171,33 @@ def build(sig, how, group, rec):
     return cls, model, listener
 
 
-def matches(token, value, sm, group, ctx=("go", "s0", "s1")):
+class Tok(str):
+    """A value sent with the event: recognisable by identity (what arrives must BE what was sent, not something equal)."""
+
+
+class Twin(Tok):
+    """... that moreover compares equal to the default of the parameter of its name ('d:<name>'), as True does to 1 or
+    Decimal('0') to 0.0: equality with a default says nothing about whether a value was passed."""
+
+    def __eq__(self, other):
+        return str.__eq__(self, other) is True or (isinstance(other, str) and str.__eq__(other, "d:" + self[2:]) is True)
+
+    def __ne__(self, other):
+        return not self.__eq__(other)
+
+    __hash__ = str.__hash__
+
+
+def matches(token, value, sm, group, ctx=("go", "s0", "s1"), sent=None):
     """Does the received value correspond to the spec's token?  ctx = (event, source id, target id) of the event the
     callback belongs to."""
     from statemachine.event_data import EventData
     from statemachine.state import State
     from statemachine.transition import Transition
     if not token.startswith("B:"):
-        return value == token
+        if sent is not None and token in sent:
+            return value is sent[token]
+        return type(value) is str and value == token
     name = token[2:]
     if name == "machine":
         return value is sm or getattr(value, "model", None) is sm.model
@@ -262,8 +281,15 @@ def run(pid, tier, seed, replay):
                        f"machine with callback {c['sig']} could not be built: {type(e).__name__}: {str(e)[:100]}", replay_info)
             continue
         nrun += 1
+        sent = {}
+        for tok in c["pos"]:
+            sent[tok] = Tok(tok)
+        for u in c["user"]:
+            sent[u["val"]] = (Twin if rng.random() < 0.4 else Tok)(u["val"])
+        feats["equal_to_default_value_sent"] = any(
+            type(sent[u["val"]]) is Twin and any(p["name"] == u["name"] and p["hasdef"] for p in c["sig"]) for u in c["user"])
         try:
-            sm.go(*c["pos"], **{u["name"]: u["val"] for u in c["user"]})
+            sm.go(*[sent[t] for t in c["pos"]], **{u["name"]: sent[u["val"]] for u in c["user"]})
             outcome = "ok"
         except TypeError as e:
             outcome = "TypeError"
@@ -290,18 +316,19 @@ def run(pid, tier, seed, replay):
         bad = []
         for b in r["bound"]:
             if b["how"] in ("pos", "kw"):
-                if b["name"] not in got or not matches(b["val"], got[b["name"]], sm, group, ctx):
+                if b["name"] not in got or not matches(b["val"], got[b["name"]], sm, group, ctx, sent):
                     bad.append((b["name"], b["val"], repr(got.get(b["name"], "<absent>"))[:40]))
             elif b["how"] == "default":
                 if got.get(b["name"]) != f"d:{b['name']}":
                     bad.append((b["name"], "default", repr(got.get(b["name"], "<absent>"))[:40]))
         if any(p["kind"] == "VP" for p in c["sig"]):
-            if list(got.get("args", ())) != list(r["varpos"]):
+            ga = list(got.get("args", ()))
+            if ga != list(r["varpos"]) or not all(matches(t, v, sm, group, ctx, sent) for t, v in zip(r["varpos"], ga)):
                 bad.append(("*args", r["varpos"], repr(got.get("args"))[:60]))
         if any(p["kind"] == "VK" for p in c["sig"]):
             kw = got.get("kwargs", {})
             want = {e["name"]: e["val"] for e in r["varkw"]}
-            if set(kw) != set(want) or not all(matches(want[n], kw[n], sm, group, ctx) for n in want):
+            if set(kw) != set(want) or not all(matches(want[n], kw[n], sm, group, ctx, sent) for n in want):
                 bad.append(("**kwargs", sorted(want), sorted(kw)))
         if bad:
             chk.report(dict(feats, kind="binding_mismatch"),
